@@ -387,3 +387,23 @@ def r1b(ctx, R):
             continue
         ok = all(c.guards == ['stage in self.params.skip_residual_computation'] for c in sk)
         R.check(ok, f'{ci.name}.compute_residual :: residual kept without computation only if the stage is in skip_residual_computation', f'{ci.module.relpath}:{ci.name}.compute_residual', 'guard: stage in self.params.skip_residual_computation', [c.guards for c in sk])
+
+
+@rule('C03', 'C03.R7', 'the residual is refreshed after EVERY sweep: in each iteration handler update_nodes() is followed, on every path of the same loop iteration, by compute_residual() of the same sweeper (what post_sweep logs is the defect of the values just computed)', floor=8)
+def r7(ctx, R):
+    repo = ctx.repo
+    for rel, cn in ((NONMPI, 'controller_nonMPI'), (MPI, 'controller_MPI')):
+        ci = repo.cls(rel, cn)
+        for name, fn in ci.methods.items():
+            if not name.startswith('it_') or name == 'it_check':
+                continue
+            cfg = FuncCFG(fn)
+            ups = [(n, c) for n in cfg.stmt_of for c in cfg.calls_at(n) if isinstance(c.func, ast.Attribute) and c.func.attr == 'update_nodes']
+            for n, c in ups:
+                w = f'{rel}:{cn}.{name}'
+                R.fn(w)
+                recv = ast.unparse(c.func.value)
+                same = [m for m in cfg.stmt_of for k in cfg.calls_at(m) if isinstance(k.func, ast.Attribute) and k.func.attr == 'compute_residual' and ast.unparse(k.func.value) == recv and cfg.loops_of[id(cfg.stmt_of[m])] == cfg.loops_of[id(cfg.stmt_of[n])]]
+                ok = len(same) == 1 and cfg.dominates(n, same[0]) and cfg.guards[id(cfg.stmt_of[same[0]])] == cfg.guards[id(cfg.stmt_of[n])]
+                R.check(ok, f'{cn}.{name} :: {recv}.update_nodes() is followed by {recv}.compute_residual() under the same conditions, once per sweep', w, 'same loop nest, same guards, after the sweep', f'{len(same)} residual computation(s) in the same loop nest' + ('' if not same else '; guards differ' if cfg.guards[id(cfg.stmt_of[same[0]])] != cfg.guards[id(cfg.stmt_of[n])] else ''))
+    R.exc('controller_ParaDiag_nonMPI.it_ParaDiag :: all-at-once residual', f'{PARADIAG}:controller_ParaDiag_nonMPI.it_ParaDiag', 'ParaDiag computes the all-at-once residual BEFORE the local solves by construction (increment formulation, C15.R3); IT_CHECK recomputes it before deciding (C03.R3)')
